@@ -819,6 +819,11 @@ def binop(a, b, name, out_dtype=None):
         if name == "ne":
             return True
         raise TypeError("unsupported operand type(s)")
+    # a symbolic-length operand meeting an array of another capacity: make the lengths concrete first
+    if isinstance(a, ndarray) and isinstance(b, ndarray) and (a.n is not None or b.n is not None):
+        if a.o.ndim and b.o.ndim and (a.o.shape[0] != b.o.shape[0] or _symlen(a, b) == "mixed" or (a.n is None) != (b.n is None)):
+            if not ((a.n is None and a.o.shape[0] == 1) or (b.n is None and b.o.shape[0] == 1)):
+                a, b = a.fixed(), b.fixed()
     sa, sb = _shadow_operand(a), _shadow_operand(b)
     with rnp.errstate(all="ignore"):
         sh = REALOP[name](sa, sb)
